@@ -42,7 +42,9 @@ def U(name, typ, ts, tt, dt=5.0):
 PROBLEMS = {
     1: dict(streams=[S("A", "H1", 200, 80, 1200), S("A", "C1", 60, 150, 900), S("B", "H2", 180, 40, 700, 10), S("B", "C2", 30, 120, 990, 2.5)],
             utilities=[U("LPS", "Both", 140, 140, 12.0), U("CW", "Cold", 10, 20, 12.0)], options={"DT_CONT": 12.0, "REFRIGERANTS": "ammonia,propane"}),     # non-default options (a number and a list-valued one)
-    2: dict(streams=[S("Only", "H1", 250, 50, 400), S("Only", "H2", 120, 30, 90, 0.0)], utilities=[], options={}),
+    # labels of the reader's own numbered form: the workbook channel carries them as the NUMBERS 0 and 1 in the zone / name cells
+    # (normalised to "Z0" / "S0", "S1" by the reader; the number 0 is a label, not an empty cell -- seeded change C16g)
+    2: dict(streams=[S("Z0", "S0", 250, 50, 400), S("Z0", "S1", 120, 30, 90, 0.0)], utilities=[], options={}),
     3: dict(streams=[S("Plant/U1", "F1", 20, 180, 3200), S("Plant/U1", "F2", 150, 150, 250), S("Plant/U2", "P1", 250, 40, 3150, 7.5),
                      S("Yard", "P2", 200, 80, 1800)],
             utilities=[U("HPS", "Hot", 260, 260), U("HW", "Hot", 90, 70)], options={}),
@@ -193,7 +195,10 @@ def materialise(p, ch, d: Path):
     if ch == "xlsx":
         f = d / "Site.xlsx"
         with pd.ExcelWriter(f, engine="openpyxl") as w:
-            pd.DataFrame(srows).to_excel(w, sheet_name="Stream Data", header=False, index=False)
+            import re
+            num = lambda v: int(v[1:]) if isinstance(v, str) and re.fullmatch(r"[SZ]\d+", v) else v
+            xrows = srows[:2] + [[num(r[0]), num(r[1])] + r[2:] for r in srows[2:]]
+            pd.DataFrame(xrows).to_excel(w, sheet_name="Stream Data", header=False, index=False)
             pd.DataFrame(urows).to_excel(w, sheet_name="Utility Data", header=False, index=False)
             # option names as typed by hand: with stray blanks around them (seeded change C16e)
             orows = [["### Options ### ", None]] + [[f" {k} ", v] for k, v in (prob.get("options") or {}).items()] if prob.get("options") else [["key", "value"], ["", ""]]
